@@ -107,14 +107,15 @@ def rule_FR1(ctx, rep):
         raise AnalysisError('FR1: header unpack is not inside the frame loop')
     lp = loops[0]
     g = lp.test
-    if isinstance(g, ast.Compare) and len(g.ops) == 1 and const_int(g.comparators[0]) is not None:
-        c = const_int(g.comparators[0])
+    lg = _len_guard(g, {'data', 'self.bytes'})
+    if lg is not None and const_int(lg[1]) is not None:
+        c = const_int(lg[1]) + (1 if lg[0] is ast.Gt else 0)
         if c == hs:
             rep.ok('FR1', rcv, g, f'loop guard uses the header size {hs} = calcsize({f["rfmt"]!r})')
         else:
-            rep.bad('FR1', rcv, g, f'loop guard uses {c}, but the header has calcsize({f["rfmt"]!r}) = {hs} bytes')
+            rep.bad('FR1', rcv, g, f'loop guard admits buffers from {c} bytes, but the header has calcsize({f["rfmt"]!r}) = {hs} bytes')
     else:
-        raise AnalysisError('FR1: frame loop guard not of the form len(data) <op> <int>')
+        raise AnalysisError('FR1: frame loop guard not a comparison of len(buffer) with an integer')
     # len_packet = size + hs
     lps = [s for s in iter_nodes(lp) if isinstance(s, ast.Assign) and mentions_name(s.value, sizev) and isinstance(s.value, ast.BinOp)]
     if not lps:
@@ -164,11 +165,18 @@ class _Bytes:
 
 
 def _len_guard(test, bufnames):
-    """`len(buf) < E` / `len(buf) >= E` -> (op, E expr) else None."""
+    """A comparison between len(buf) and E, in either orientation -> (op class as if written `len(buf) <op> E`, E expr)."""
     if isinstance(test, ast.Compare) and len(test.ops) == 1:
-        l, r = test.left, test.comparators[0]
-        if isinstance(l, ast.Call) and attr_tail(l.func) == 'len' and l.args and norm(l.args[0]) in bufnames:
-            return type(test.ops[0]), r
+        l, r, op = test.left, test.comparators[0], test.ops[0]
+
+        def is_len(x):
+            return isinstance(x, ast.Call) and attr_tail(x.func) == 'len' and x.args and norm(x.args[0]) in bufnames
+        if is_len(l) and not is_len(r):
+            return type(op), r
+        if is_len(r) and not is_len(l):
+            mirror = {ast.Lt: ast.Gt, ast.LtE: ast.GtE, ast.Gt: ast.Lt, ast.GtE: ast.LtE, ast.Eq: ast.Eq, ast.NotEq: ast.NotEq}
+            if type(op) in mirror:
+                return mirror[type(op)], l
     return None
 
 
@@ -372,6 +380,8 @@ def rule_FR3(ctx, rep):
         rep.bad('FR3', rcv, p, 'pop without default: a receive before arrival raises KeyError')
         return
     default = p.args[1]
+    if norm(p.args[0]) != lab:
+        rep.bad('FR3', rcv, p, f'buffers are popped with key {norm(p.args[0])}, not with the requested label {lab}')
     rep.ok('FR3', rcv, p, 'arrived payload is removed when it is handed out')
     st = astq.enclosing_stmt(p, pm)
     if not (isinstance(st, ast.Assign) and isinstance(st.targets[0], ast.Name)):
@@ -381,24 +391,61 @@ def rule_FR3(ctx, rep):
     if not tests:
         raise AnalysisError('FR3: absence test on the popped value not found')
     t = tests[0].test
-    ident = isinstance(t, ast.Compare) and len(t.ops) == 1 and isinstance(t.ops[0], ast.Is) and norm(t.left) == v \
-        and norm(t.comparators[0]) == norm(default)
+    ident = isinstance(t, ast.Compare) and len(t.ops) == 1 and isinstance(t.ops[0], (ast.Is, ast.IsNot)) and \
+        sorted([norm(t.left), norm(t.comparators[0])]) == sorted([v, norm(default)])
+    absent_branch, present_branch = (tests[0].body, tests[0].orelse) if (ident and isinstance(t.ops[0], ast.Is)) else (tests[0].orelse, tests[0].body)
     if ident:
         rep.ok('FR3', rcv, t, 'absence is tested by identity against the pop default (empty payloads are payloads)')
     else:
         rep.bad('FR3', rcv, t, f'absence of a payload is tested with `{norm(t)}` instead of identity with the pop default '
                 f'{norm(default)}: an empty payload that already arrived is taken for "not yet arrived" and the receive never completes')
-    # a Future is stored only in the absent branch, keyed by the label, and returned
-    futs = [s for s in iter_nodes(tests[0]) if isinstance(s, ast.Assign) and any(isinstance(x, ast.Subscript) and isinstance(x.value, ast.Attribute)
-            and x.value.attr == 'buffers' for x in s.targets) and isinstance(s.value, ast.Call) and attr_tail(s.value.func) == 'Future']
-    in_body = [s for s in futs if any(astq._contains(b, s) for b in tests[0].body)]
-    if len(futs) == 1 and len(in_body) == 1 and any(isinstance(x, ast.Name) and x.id == v for x in futs[0].targets):
-        rep.ok('FR3', rcv, futs[0], 'a Future is registered only when nothing has arrived, and is what receive returns')
+        absent_branch, present_branch = tests[0].body, tests[0].orelse
+    # in the absent branch a fresh Future is stored under the label; that same object is what receive returns
+    stores = [s for s in absent_branch for s in [s] if isinstance(s, ast.Assign) and any(isinstance(x, ast.Subscript) and isinstance(x.value, ast.Attribute)
+              and x.value.attr == 'buffers' for x in s.targets)]
+    fut_names = set()
+    okstore = False
+    if len(stores) == 1:
+        s0 = stores[0]
+        key = [x for x in s0.targets if isinstance(x, ast.Subscript)][0]
+        val = s0.value
+        if isinstance(val, ast.Call) and attr_tail(val.func) == 'Future':
+            okstore = norm(key.slice) == lab
+            fut_names |= {x.id for x in s0.targets if isinstance(x, ast.Name)}
+        elif isinstance(val, ast.Name):
+            d = [a for a in absent_branch if isinstance(a, ast.Assign) and any(isinstance(x, ast.Name) and x.id == val.id for x in a.targets)
+                 and isinstance(a.value, ast.Call) and attr_tail(a.value.func) == 'Future' and astq.position(a) < astq.position(s0)]
+            okstore = bool(d) and norm(key.slice) == lab
+            fut_names.add(val.id)
+    other_stores = [s for s in iter_nodes(rcv.node) if isinstance(s, ast.Assign) and any(isinstance(x, ast.Subscript) and isinstance(x.value, ast.Attribute)
+                    and x.value.attr == 'buffers' for x in s.targets) and s not in stores]
+    if okstore and not other_stores:
+        rep.ok('FR3', rcv, stores[0], 'a Future is registered under the label only when nothing has arrived')
     else:
-        rep.bad('FR3', rcv, tests[0], 'the waiting Future is not registered exactly in the "not yet arrived" branch / not returned')
+        rep.bad('FR3', rcv, tests[0], 'the waiting Future is not registered (exactly) in the "not yet arrived" branch under the requested label')
+    # returns: absent path returns the registered Future, present path returns the popped payload
     rets = [r for r in iter_nodes(rcv.node) if isinstance(r, ast.Return)]
-    if not rets or any(r.value is None or norm(r.value) != v for r in rets):
-        rep.bad('FR3', rcv, rets[0] if rets else rcv.qualname, 'receive does not return the popped payload / registered Future', rcv.node)
+    badret = None
+    for r in rets:
+        if r.value is None:
+            badret = r
+            continue
+        rv = norm(r.value)
+        in_absent = any(astq._contains(a, r) for a in absent_branch)
+        in_present = any(astq._contains(a, r) for a in present_branch)
+        if in_absent and rv not in fut_names:
+            badret = r
+        elif in_present and rv != v:
+            badret = r
+        elif not in_absent and not in_present and rv not in fut_names | {v}:
+            badret = r
+        elif not in_absent and not in_present and rv == v and v not in fut_names and stores:
+            # common return after the if: the popped name must have been re-bound to the Future in the absent branch
+            badret = r
+    if rets and badret is None:
+        rep.ok('FR3', rcv, rets[-1], 'receive returns the popped payload, or the Future it registered')
+    else:
+        rep.bad('FR3', rcv, badret if badret is not None else rcv.qualname, 'receive does not return the popped payload / the registered Future on every path', rcv.node)
     # data_received: present -> pop + set_result(payload); absent -> store payload
     f = _frame_facts(ctx)
     pmd = parents(dr.node)
@@ -441,10 +488,11 @@ def rule_FR5(ctx, rep):
     pm = parents(rcv.node)
     lp = [a for a in ancestors(f['hdr'], pm) if isinstance(a, ast.While)][0]
     g = lp.test
-    op = g.ops[0]
-    if isinstance(op, ast.GtE) and const_int(g.comparators[0]) == f['hsize']:
-        rep.ok('FR5', rcv, g, 'a buffer holding exactly one header (empty payload) enters the loop')
-    elif isinstance(op, ast.Gt) and const_int(g.comparators[0]) == f['hsize'] - 1:
+    lg = _len_guard(g, {'data', 'self.bytes'})
+    admits = None
+    if lg is not None and const_int(lg[1]) is not None:
+        admits = const_int(lg[1]) + (1 if lg[0] is ast.Gt else 0) if lg[0] in (ast.Gt, ast.GtE) else None
+    if admits is not None and admits <= f['hsize']:
         rep.ok('FR5', rcv, g, 'a buffer holding exactly one header (empty payload) enters the loop')
     else:
         rep.bad('FR5', rcv, g, f'loop guard `{norm(g)}` does not admit a buffer of exactly {f["hsize"]} bytes: a frame with an empty '
@@ -462,8 +510,8 @@ def rule_FR5(ctx, rep):
         good = False
         if len(ifs) == 1 and ifs[0][1] == 'body':
             t = ifs[0][0].test
-            if isinstance(t, ast.Compare) and len(t.ops) == 1 and isinstance(t.ops[0], ast.Lt) and lpv and norm(t.comparators[0]) == lpv \
-                    and isinstance(t.left, ast.Call) and attr_tail(t.left.func) == 'len':
+            lg2 = _len_guard(t, {'data', 'self.bytes'})
+            if lg2 is not None and lg2[0] is ast.Lt and lpv and norm(lg2[1]) == lpv:
                 good = True
         if good and (isinstance(e, ast.Break) or (isinstance(e, ast.Return) and e.value is None and bufalias0)):
             rep.ok('FR5', rcv, ifs[0][0].test, 'the loop is left only when fewer bytes than one complete frame are buffered')
@@ -792,8 +840,10 @@ def rule_CR2(ctx, rep):
             # must be after the completeness guard inside the frame loop
             lp = [a for a in ancestors(c, pm) if isinstance(a, ast.While)]
             guards = [s for s in (lp[0].body if lp else []) if isinstance(s, ast.If) and _len_guard(s.test, {'data', 'self.bytes'})
+                      and _len_guard(s.test, {'data', 'self.bytes'})[0] in (ast.Lt, ast.LtE)
                       and any(isinstance(x, (ast.Break, ast.Return)) for x in s.body)]
-            if lp and guards and astq.position(guards[0]) < astq.position(c) and not astq._contains(guards[0], c):
+            if lp and guards and astq.position(guards[0]) < astq.position(c) and \
+                    (not astq._contains(guards[0], c) or any(astq._contains(x, c) for x in guards[0].orelse)):
                 rep.ok('CR2', fn, c, 'completed only after the whole frame is known to be buffered')
             else:
                 rep.bad('CR2', fn, c, 'a receive can be completed before the frame is complete (a peer crashing mid-message would deliver garbage)')
